@@ -12,7 +12,6 @@ theorem skel_handleCall_shape :
     Generated.skel_handleCall = [
   "if c.handler == nil",
   "  if frame.ID != nil",
-  "    epoch := atomic.LoadUint64(&c.connEpoch)",
   "    rpcError(func{…}, &request{Jsonrpc: frame.Jsonrpc, ID: frame.ID, Method: frame.Method}, rpcMethodNotFound, fmt.Errorf(\"method '%s' not found\", frame.Method))",
   "      c.nextWriter(epoch, cb)",
   "  return",
@@ -23,12 +22,14 @@ theorem skel_handleCall_shape :
   "done := func{…}",
   "  if !keepCtx",
   "    cancel()",
-  "epoch := atomic.LoadUint64(&c.connEpoch)",
   "if frame.ID != nil",
   "  nextWriter = func{…}",
   "    c.nextWriter(epoch, cb)",
   "  c.handlingLk.Lock()",
-  "  c.handling[frame.ID] = cancel",
+  "  if atomic.LoadUint64(&c.connEpoch) == epoch",
+  "    c.handling[frame.ID] = cancel",
+  "  else",
+  "    cancel()",
   "  c.handlingLk.Unlock()",
   "  done = func{…}",
   "    c.handlingLk.Lock()",
